@@ -421,6 +421,15 @@ class CompiledLogicNet(torch.nn.Module):
                         right_var = self._conv_input_var(
                             source, (right_h, right_w, right_d), right_c, conv_info['in_dim'], conv_info['padding'])
 
+                    if conv_info['tree_depth'] == 0:
+                        # a tree of depth 0 is its single first-level gate: it is the output
+                        output_idx = kernel_idx * iter_range + pos_idx
+                        code.append(
+                            f"\tlayer_{layer_name}_out[{output_idx}] = "
+                            f"{self.get_gate_code(left_var, right_var, gate_op)};"
+                        )
+                        continue
+
                     var_name = f"conv_{layer_name}_k{kernel_idx}_p{pos_idx}_l0_g{gate_idx}"
                     code.append(
                         f"\tconst {BITS_TO_DTYPE[self.num_bits]} {var_name} = "
